@@ -5,7 +5,7 @@
    [old_classify] is the decision of the unrepaired code (type switch on the outermost value). *)
 From Coq Require Import List ZArith NArith Bool.
 Import ListNotations.
-From SygmaV Require Import Model.C07 Proofs.C07 Model.C11 Proofs.C11 Proofs.C11_Real.
+From SygmaV Require Import Model.C07 Proofs.C07 Model.C11 Proofs.C11 Proofs.C11_Real Proofs.C11_Indep.
 
 (* A tree that contains exactly one recognised cause - anywhere, under any nesting of joins, wraps
    and other errors - is classified as that cause. *)
@@ -432,4 +432,79 @@ Example C11_nonvacuous :
   /\ spec_ok (mkEnv (mkTiming 3600000 3600000) [0; 1; 2; 3]%N 1%Z 0%N [] [] []) true
              (pool_join [pool_join [Node (KTss [] true) [Node KOther []]]]) 1
              (mkObs [(false, [1; 0]%N)] None [] [] FNil [] []) = false.
+Proof. vm_compute. repeat split. Qed.
+
+
+(* ---- messages of excluded peers during the replacement attempt ---------------------------------- *)
+
+(* A relayer that lost the re-election to [c2] (handleError's watcher was told the empty id): for ALL
+   message sequences - fail, initiate, start messages in any order - what it does is what it would do
+   had the excluded peers sent nothing ([c2] is a candidate, i.e. not excluded). *)
+Theorem C11_excluded_messages_ignored : forall c2 ps msgs,
+  memb c2 ps = false ->
+  retry_wait c2 msgs = retry_wait c2 (filter (fun m => negb (memb (msg_from m) ps)) msgs).
+Proof. exact retry_wait_drop. Qed.
+Print Assumptions C11_excluded_messages_ignored.
+
+(* ... with arrival times, as long as no bound of the wait is reached: neither what it does nor how the
+   wait ends depends on them *)
+Theorem C11_excluded_messages_ignored_timed : forall tm c2 ps msgs,
+  memb c2 ps = false -> timely (coord_to tm) (tss_to tm) msgs = true ->
+  retry_start_wait tm c2 msgs = retry_start_wait tm c2 (drop_excluded ps msgs)
+  /\ snd (retry_start_wait tm c2 msgs) = false.
+Proof. exact retry_start_wait_drop. Qed.
+Print Assumptions C11_excluded_messages_ignored_timed.
+
+(* The judge's clause [indep_ok] accepts the model's whole session for every input and every message
+   sequence (the relayer that coordinates the replacement attempt itself reads no fail, initiate or start
+   message at all: [continue] does not depend on [msgs2] there). *)
+Theorem C11_indep_ok_model : forall (key : peer -> N) tm m br holders t self unreach retryable runs1 e bs ready2 msgs2,
+  (forall ps, classify e = RetryExcluding ps ->
+              bully_guarded (br self bs (exclude holders ps)) self (exclude holders ps) = true) ->
+  indep_ok (mkEnv tm holders t self unreach ready2 msgs2) retryable e (length runs1)
+    (continue key tm m br classify holders t self retryable runs1 e bs ready2 msgs2) = true.
+Proof. exact indep_ok_model. Qed.
+Print Assumptions C11_indep_ok_model.
+
+Theorem C11_indep_ok_model_strict : forall (key : peer -> N) tm m holders t self unreach retryable runs1 e bs ready2 msgs2,
+  indep_ok (mkEnv tm holders t self unreach ready2 msgs2) retryable e (length runs1)
+    (continue key tm m (bully_strict key) classify holders t self retryable runs1 e bs ready2 msgs2) = true.
+Proof. exact indep_ok_model_strict. Qed.
+Print Assumptions C11_indep_ok_model_strict.
+
+(* What the clause means for an observation: if nothing but the culprits' messages can have ended or
+   delayed the replacement attempt, the session has not ended with an error, and a relayer that does not
+   coordinate the attempt answered and ran exactly what it would have answered and run for some key holder that is not a culprit as
+   coordinator, had the culprits sent nothing. *)
+Theorem C11_judge_indep_sound : forall ev ps nfirst o,
+  memb (e_self ev) ps = false -> calm (e_tm ev) ps (e_msgs2 ev) = true ->
+  uninfluenced ev ps nfirst o = true ->
+  o_final o = FNil
+  /\ (o_inits2 o = [] ->
+      exists c2, In c2 (e_holders ev) /\ ~ In c2 ps
+                 /\ skipn nfirst (o_runs o)
+                    = runs_of (fst (retry_start_wait (e_tm ev) c2 (drop_excluded ps (e_msgs2 ev))))
+                 /\ o_ready2 o
+                    = readies_of (fst (retry_start_wait (e_tm ev) c2 (drop_excluded ps (e_msgs2 ev))))).
+Proof. exact uninfluenced_sound. Qed.
+Print Assumptions C11_judge_indep_sound.
+
+(* Non-vacuity: key holder 3 lost the re-election to 1 after culprit 2 was excluded; the culprit sends a
+   fail message during the election, an initiate and a start message, and another fail message before the
+   elected coordinator's start: the model ignores all of them; an observation in which the culprit's fail
+   message ended the session ("tss fail message received", no second Run) is rejected, as is one in which
+   the session went on but the coordinator's start was not honoured. *)
+Example C11_indep_nonvacuous :
+  let tm := mkTiming 3600000 3600000 in
+  let msgs := [(0, MFail 2); (0, MInitiate 2); (0, MStart 2 (Some [2])); (0, MInitiate 1); (0, MFail 2); (0, MStart 1 (Some [1; 3]))]%N in
+  let ev := mkEnv tm [0; 1; 2; 3]%N 1%Z 3%N [] [] msgs in
+  let e := pool_join [pool_join [Node (KCoord 2%N) []]] in
+  calm tm [2%N] msgs = true
+  /\ retry_start_wait tm 1%N msgs = ([OReady 1; ORun [1; 3]]%N, false)
+  /\ indep_ok ev true e 1 (mkObs [(false, [2; 0]%N); (false, [1; 3]%N)] (Some [1; 0; 3]%N) [] [1%N] FNil [] []) = true
+  /\ indep_ok ev true e 1 (mkObs [(false, [2; 0]%N)] (Some [1; 0; 3]%N) [] [] FOther [] []) = false
+  /\ indep_ok ev true e 1 (mkObs [(false, [2; 0]%N)] (Some [1; 0; 3]%N) [] [1%N] FNil [] []) = false
+  (* a fail message of a peer that is not a culprit: nothing is demanded *)
+  /\ indep_ok (mkEnv tm [0; 1; 2; 3]%N 1%Z 3%N [] [] ((0, MFail 0) :: msgs)%N) true e 1
+               (mkObs [(false, [2; 0]%N)] (Some [1; 0; 3]%N) [] [] FOther [] []) = true.
 Proof. vm_compute. repeat split. Qed.
